@@ -227,6 +227,10 @@ class Gen:
             return ("var", 2)
         if key == ("zksync.roles.validator.ValidatorInfo", "weight"):
             return ("var", r.choice([1, 1, 2, 5, 1000, 1 << 40]))
+        if mname in ("zksync.network.ping.PingReq", "zksync.network.ping.PingResp"):
+            return ("len", bytes(r.below(256) for _ in range(32)))
+        if key == ("zksync.network.gossip.Handshake", "build_version"):
+            return ("len", r.choice(["0.1.0", "1.2.3", "10.20.30-rc.1", "0.0.0+build5"]).encode())
         if key == ("zksync.std.RateLimit", "burst"):
             return ("var", self.u64())
         return None
@@ -511,12 +515,14 @@ def descriptor_view_rust(dump):
 
 
 def impl_canon_obs(o):
+    """Coq obsv literal of a canonical_raw result (bytes as a hex string literal)."""
     if "ok" in o:
-        return [0, list(bytes.fromhex(o["ok"]))]
+        return f'(OL [OZ 0; obs_hex "{o["ok"]}"])'
     if "err" in o:
-        return [1]
+        return "(OL [OZ 1])"
     msg = o.get("panic", "")
-    return [2, 3 if "index out of bounds" in msg else (4 if "unwrap" in msg else 99)]
+    code = 3 if "index out of bounds" in msg else (4 if "unwrap" in msg else 99)
+    return f"(OL [OZ 2; OZ {code}])"
 
 
 def coq_bytes(b):
@@ -593,7 +599,10 @@ def run(rep):
         if mname == "verif.c09.Implicit":
             continue
         for k in range(nvals * 4):
-            items.append({"pool": "test", "sc": tsc, "msg": mname, "ty": None, "entries": tgen.message(mname, 0, None, 30), "domain": True})
+            e = tgen.message(mname, 0, None, 30)
+            while len(canon(tsc, mname, e)) > 2500:
+                e = tgen.message(mname, 1, None, 30)
+            items.append({"pool": "test", "sc": tsc, "msg": mname, "ty": None, "entries": e, "domain": True})
     arng = rng.fork()
     canon_cases, rt_cases = [], []
     for it in items:
@@ -687,14 +696,14 @@ def run(rep):
         s = sc if c["pool"] == "real" else tsc
         if c["msg"] not in s.index:
             continue
-        inp = f"({'false' if c['pool'] == 'real' else 'true'}, {s.index[c['msg']]}%nat, {coq_bytes(bytes.fromhex(c['hex']))})"
-        coq_cases.append((k, inp, common.to_obsv(impl_canon_obs(o))))
+        inp = f"({'false' if c['pool'] == 'real' else 'true'}, {s.index[c['msg']]}%nat, \"{c['hex']}\")"
+        coq_cases.append((k, inp, impl_canon_obs(o)))
         case_of[k] = (c, o)
         k += 1
     sample_ids = [0, 1, len(canon_cases) + 3, len(all_cases) - 1]
     mm, samp = common.run_model_cases(
-        "C09", "From EC Require Import Model.Wire Model.ProtoSchema Gen.Schema.",
-        "(fun c : bool * nat * list Z => run_canonical_raw (if fst (fst c) then test_schema else schema) (snd (fst c), snd c))",
+        "C09", "From EC Require Import Model.Wire Model.ProtoSchema Gen.Schema.\nOpen Scope string_scope.",
+        "(fun c : bool * nat * string => run_canonical_raw (if fst (fst c) then test_schema else schema) (snd (fst c), unhex (snd c)))",
         coq_cases, shard_size=max(40, len(coq_cases) // 16 + 1), sample_ids=sample_ids)
     if mm:
         broken.append(f"correspondence vh codec canon vs Model.ProtoSchema.canonical_raw: {len(mm)} disagreeing cases")
@@ -702,6 +711,7 @@ def run(rep):
     if tmm:
         broken.append(f"correspondence vh codec rt/build vs Model.ProtoTyped: {len(tmm)} disagreeing cases")
     # 7. verdict
+    pred_fail.sort(key=lambda d_: len(d_.get("hex") or "") if isinstance(d_.get("hex"), str) else 0)
     if pred_fail:
         rep.violation("wire encoding violates C09 on the implementation: " + pred_fail[0]["failed"],
                       {"failing_input": pred_fail[0], "more": pred_fail[1:4], "broken": broken})
@@ -771,19 +781,216 @@ def run(rep):
 
 
 # ---------------------------------------------------------------------------
-# typed layer hooks (defined below)
+# typed layer: Model/ProtoTyped.v
 
-TYPED = False
-NORMALISING = set()
-PARTIAL = ""
+TYPED = True
+MODELLED = {
+    "std.Duration": "TDuration", "std.Timestamp": "TTimestamp", "std.SocketAddr": "TSocketAddr",
+    "std.BitVector": "TBitVector", "validator.Signers": "TBitVector",
+    "validator.View": "TView", "validator.BlockHeader": "TBlockHeader", "validator.ReplicaCommit": "TReplicaCommit",
+    "validator.CommitQC": "TCommitQC", "validator.ReplicaTimeout": "TReplicaTimeout", "validator.TimeoutQC": "TTimeoutQC",
+}
+PARTIAL = ("Proved for every schema: canonical_raw maps every reading (`denote`) of a byte string to the canonical bytes of the value read, "
+           "and the canonical bytes are invariant under reordering of different fields at any depth. `denote` excludes empty packed chunks and packed "
+           "chunks on singular fields (canonical_raw panics on the former, accepts the latter although it is not valid protobuf). "
+           "Typed build/read are modelled for Duration, Timestamp, SocketAddr, BitVector, View, BlockHeader, ReplicaCommit, CommitQC, ReplicaTimeout, TimeoutQC; "
+           "the other wire/storage types (ProposalJustification ... RPC messages) are covered by the schema-level theorems, the canonical_raw correspondence on "
+           "their real descriptors and the implementation-only predicates, not by typed theorems. prost's decoder is represented by `denote`; keccak and the "
+           "validity of keys/signatures are outside the model.")
+I64MIN, I64MAX = -(1 << 63), (1 << 63) - 1
+
+
+def pb(*fields):
+    """tiny helper: canonical bytes of a flat message given (number, wire, value) triples"""
+    out = bytearray()
+    for (n, w, v) in fields:
+        out += varint(n << 3 | w)
+        if w == 0:
+            out += varint(v & (U64 - 1))
+        else:
+            out += varint(len(v)) + v
+    return bytes(out)
+
+
+def std_edge_cases(rng, n):
+    cases = []
+    secs = [0, 1, -1, 5, -5, I64MAX, I64MAX - 1, I64MIN, I64MIN + 1, 1 << 62, -(1 << 62), 1700000000]
+    nanos = [0, 1, -1, 999999999, -999999999, 1000000000, -1000000000, 2147483647, -2147483648, 500000000,
+             (1 << 32) + 7, (1 << 31), 1 << 40]
+    for s_ in secs:
+        for n_ in nanos:
+            for ty in ("std.Duration", "std.Timestamp"):
+                cases.append({"op": "rt", "ty": ty, "hex": pb((1, 0, s_), (2, 0, n_)).hex(), "kind": "edge"})
+    for _ in range(n):
+        s_ = rng.choice(secs + [rng.range(-(1 << 40), 1 << 40), rng.next() - (1 << 63)])
+        n_ = rng.choice(nanos + [rng.range(-(1 << 31), (1 << 31) - 1)])
+        k = rng.below(10)
+        f = [(1, 0, s_), (2, 0, n_)]
+        if k == 0:
+            f = f[:1]
+        elif k == 1:
+            f = f[1:]
+        elif k == 2:
+            f = [f[1], f[0]]
+        cases.append({"op": "rt", "ty": rng.choice(["std.Duration", "std.Timestamp"]), "hex": pb(*f).hex(), "kind": "edge"})
+        # socket addresses
+        ip = bytes(rng.below(256) for _ in range(rng.choice([4, 16, 4, 16, 0, 3, 5, 15, 17, 32])))
+        port = rng.choice([0, 1, 65535, 65536, 65537, (1 << 32) - 1, (1 << 32), (1 << 32) + 80, rng.below(65536)])
+        f = [(1, 2, ip), (2, 0, port)]
+        if rng.chance(1, 10):
+            f = f[:1] if rng.chance(1, 2) else f[1:]
+        cases.append({"op": "rt", "ty": "std.SocketAddr", "hex": pb(*f).hex(), "kind": "edge"})
+        # bit vectors: size against the number of bytes, padding bits set
+        nb = rng.range(0, 17)
+        by = bytes(rng.below(256) for _ in range(nb))
+        size = rng.choice([0, nb * 8, max(0, nb * 8 - rng.range(0, 9)), nb * 8 + rng.range(1, 9), rng.range(0, 140), U64 - 1, 1 << 40])
+        f = [(1, 0, size), (2, 2, by)]
+        if rng.chance(1, 10):
+            f = f[:1] if rng.chance(1, 2) else f[1:]
+        cases.append({"op": "rt", "ty": rng.choice(["std.BitVector", "validator.Signers"]), "hex": pb(*f).hex(), "kind": "edge"})
+    return cases
 
 
 def build_cases(rng, tier, pool):
-    return [], (lambda outs: [])
+    """Typed constructions through the public Rust API: equal values produced in different ways."""
+    n = 40 if tier == "quick" else 600
+    cases, groups = [], []     # groups: lists of case indices that must encode identically
+
+    def h32():
+        return bytes(rng.below(256) for _ in range(32)).hex()
+
+    def view():
+        return {"genesis": rng.choice(hs), "number": str(rng.choice([0, 1, 2, rng.next()])), "epoch": str(rng.choice([0, 1, rng.below(5)]))}
+
+    def commit():
+        return {"view": view(), "proposal": {"number": str(rng.choice([0, 1, rng.next()])), "payload": rng.choice(hs)}}
+
+    def bits():
+        return [rng.below(2) for _ in range(rng.choice([0, 1, 3, 8, 9, rng.range(0, 20)]))]
+
+    def cqc():
+        return {"msg": commit(), "signers": bits(), "sig": rng.below(9)}
+
+    def timeout():
+        return {"view": view(), "high_vote": commit() if rng.chance(2, 3) else None, "high_qc": cqc() if rng.chance(1, 2) else None}
+
+    for _ in range(n):
+        hs = [h32() for _ in range(2)]
+        # TimeoutQC: the same entries inserted in several orders (BTreeMap)
+        es = [[timeout(), bits()] for _ in range(rng.range(0, 5))]
+        if es and rng.chance(1, 3):
+            es.append([es[0][0], bits()])           # same key twice: the later value wins
+        base = {"op": "build", "ty": "validator.TimeoutQC", "view": view(), "entries": es, "sig": rng.below(9)}
+        g = [len(cases)]
+        cases.append(base)
+        for _ in range(2):
+            c = dict(base)
+            # permutations that keep the relative order of equal keys (a later duplicate still wins)
+            idx = list(range(len(es)))
+            perm = rng.shuffle(idx)
+            keyid = [json.dumps(e[0], sort_keys=True) for e in es]
+            fixed = {}
+            for i in idx:
+                fixed.setdefault(keyid[i], []).append(i)
+            out, used = [], {k: 0 for k in fixed}
+            for i in perm:
+                k = keyid[i]
+                out.append(es[fixed[k][used[k]]])
+                used[k] += 1
+            c["entries"] = out
+            g.append(len(cases))
+            cases.append(c)
+        groups.append(g)
+        # Schedule: validators listed in different orders
+        m = rng.range(1, 6)
+        ranks = rng.shuffle(list(range(8)))[:m]
+        vals = [[r_, str(rng.choice([1, 2, 5, 1000])), rng.chance(2, 3)] for r_ in ranks]
+        if not any(v[2] for v in vals):
+            vals[0][2] = True
+        base = {"op": "build", "ty": "validator.Schedule", "vals": vals, "freq": str(rng.choice([0, 1, 7])), "mode": rng.choice(["rr", "w"])}
+        g = [len(cases)]
+        cases.append(base)
+        c = dict(base)
+        c["vals"] = rng.shuffle(vals)
+        g.append(len(cases))
+        cases.append(c)
+        groups.append(g)
+        # std values through their constructors
+        secs = rng.choice([0, 1, -1, I64MAX, I64MIN + 1, rng.range(-(1 << 40), 1 << 40)])
+        nan = rng.below(1000000000) * (1 if secs >= 0 else -1)
+        if secs in (I64MAX, I64MIN + 1) and rng.chance(1, 2):
+            nan = 999999999 * (1 if secs > 0 else -1)
+        cases.append({"op": "build", "ty": rng.choice(["std.Duration", "std.Timestamp"]), "secs": str(secs), "nanos": nan})
+        cases.append({"op": "build", "ty": "std.BitVector", "bits": [rng.below(2) for _ in range(rng.range(0, 70))]})
+        ip = bytes(rng.below(256) for _ in range(rng.choice([4, 16])))
+        cases.append({"op": "build", "ty": "std.SocketAddr", "ip": ip.hex(), "port": rng.below(65536),
+                      "flow": rng.choice([0, 0, rng.below(1 << 20)]), "scope": rng.choice([0, 0, rng.below(1 << 16)])})
+
+    def checks(outs):
+        bad = []
+        for c, o in zip(cases, outs):
+            if "panic" in o:
+                bad.append({"failed": "encoding a value in the property's domain panicked", **c, "impl": o})
+            elif "err" in o and c["ty"] != "validator.Schedule":
+                bad.append({"failed": "typed construction failed", **c, "impl": o})
+            elif "ok" in o:
+                plain_v6 = c["ty"] == "std.SocketAddr" and (c.get("flow") or c.get("scope"))
+                if not o["same"] and not plain_v6:
+                    bad.append({"failed": "decode(encode(v)) != v", **c, "impl": o})
+                if o.get("enc2") != o["ok"]:
+                    bad.append({"failed": "encode(decode(encode(v))) != encode(v)", **c, "impl": o})
+                if "in" in o and o.get("val") != o["in"]:
+                    bad.append({"failed": "decoded std value differs from the encoded one", **c, "impl": o})
+                if c["ty"] == "std.BitVector" and o.get("val") != c["bits"]:
+                    bad.append({"failed": "decoded bit vector differs from the encoded one", **c, "impl": o})
+        for g in groups:
+            encs = {outs[i].get("ok", outs[i].get("err")) for i in g}
+            if len(encs) != 1:
+                bad.append({"failed": "equal values built in different orders encode differently", **cases[g[0]],
+                            "other_order": cases[g[1]], "impl": [outs[i] for i in g]})
+        return bad
+
+    return cases, checks
 
 
 def typed_correspondence(rep, sc, items, routs, rt_cases, bcases, bouts):
-    return [], [], 0
+    """Model.ProtoTyped.run_rt_case on every decode of a modelled type (+ std edge stream + the
+    encodings produced by the typed constructions)."""
+    rng = Rng(rep.seed ^ 0xC09)
+    cases = []
+    for c, o in zip(rt_cases, routs):
+        if c["ty"] in MODELLED:
+            cases.append((c, o))
+    edge = std_edge_cases(rng, 150 if rep.tier == "quick" else 3000)
+    for c, o in zip(bcases, bouts):
+        if c["ty"] in MODELLED and "ok" in o:
+            edge.append({"op": "rt", "ty": c["ty"], "hex": o["ok"], "kind": "built"})
+    eouts = run_impl(edge)
+    viol = []
+    for c, o in zip(edge, eouts):
+        cases.append((c, o))
+        if "ok" in o and (not o["same"] or o["enc2"] != o["ok"]):
+            viol.append({"failed": "decode(encode(v)) != v", "ty": c["ty"], "hex": c["hex"], "impl": o})
+        if "panic" in o:
+            viol.append({"failed": "decode / re-encode panicked", "ty": c["ty"], "hex": c["hex"], "impl": o})
+    for v in viol[:3]:
+        rep.violation("wire encoding violates C09 on the implementation: " + v["failed"], {"failing_input": v})
+    coq_cases = []
+    for i, (c, o) in enumerate(cases):
+        if "ok" in o:
+            exp = f'(OL [OZ 0; obs_hex "{o["ok"]}"])'
+        elif "panic" in o:
+            exp = "(OL [OZ 2; OZ %d])" % (1 if "overflow" in o["panic"] else 99)
+        else:
+            exp = "(OL [OZ 1])"
+        coq_cases.append((i, f'({MODELLED[c["ty"]]}, "{c["hex"]}")', exp))
+    sample_ids = [0, len(cases) // 2, len(cases) - 1]
+    mm, samp = common.run_model_cases(
+        "C09typed", "From EC Require Import Model.Wire Model.ProtoSchema Model.ProtoTyped.\nOpen Scope string_scope.",
+        "Model.ProtoTyped.run_rt_case", coq_cases, shard_size=max(20, len(coq_cases) // 16 + 1), sample_ids=sample_ids)
+    mism = [{"case": cases[i][0], "impl": cases[i][1], "model_obs": m} for i, m in sorted(mm.items())]
+    samples = [{"case": cases[i][0], "impl": cases[i][1], "model_obs": samp.get(i)} for i in sample_ids if i < len(cases)]
+    return mism, samples, len(coq_cases)
 
 
 def replay(path):
